@@ -53,6 +53,12 @@ CHECKS = {
         "(and the negative theorems for the protocol as originally coded). Tied to the code by a differential run of generated scripts x timeout settings x {RunJavascript, condition, action} with a wall-clock oracle.",
    note="Partial. Trusted: otto semantics and its statement-boundary polling of Interrupt, Go scheduler/channels/timers as modelled, wall-clock tolerances (300 ms, 3 re-runs before a timing verdict). A script blocked in a native call is stopped at its next boundary, not at the limit. The model is hand-written, not extracted.",
    technique="Lean 4 proof over a hand-written transition-system model + differential correspondence check with timing oracle", ref="5 (C14)"),
+ "C18": dict(
+   text="Lean 4 theorems (Props/C18.lean, 20, audited) about DWIMURI (idempotence, prefix/version/query insensitivity for all strings), parameter typing, equality of the System call across six encodings under decoder contracts, "
+        "and error-on-missing/ill-typed/unknown-URI for every row of the dispatch table regenerated from service.go on each run; tied to the code by that regeneration, by decide-theorems over the regenerated table and by a "
+        "differential run of service.HTTPService (httptest) against a twin System (all /api/loc operations x 9 encodings x 8 prefixes; JSON result, System counters and stored state compared).",
+   note="Partial: net/url, encoding/json, yaml.v2 are contracts; result rendering is checked only differentially; trusted: extract_c18, sys.GetStats counters as the record of which method ran, the client encoders in lib/gen_c18.py.",
+   technique="Lean 4 proof over an interpreter of the dispatch table regenerated from the Go source + differential correspondence (service via httptest vs twin System)", ref="5 (C18)"),
  "C19": dict(
    text="Lean theorems (Props/C19.lean) about the guards of every Location method (table regenerated from location.go and compared with the model's by decide; refusal is a no-op; reads need the read key; right key transparent). " + TIE_LOC +
         "Full matrix protection states x callers x operations with snapshots of memory and storage around each call, both states; also checked directly against the property.",
